@@ -36,10 +36,27 @@ def sh(cmd, cwd=None, timeout=3600, input=None):
 
 
 # ------------------------------------------------------------------ build steps
-def run_extract():
+# which translator sections each property's theorems / model parameters depend on
+SECTION_DEPS = {
+    "forbidden": ["C05", "C12", "C14"], "libflags": ["C04", "C05"], "details": ["C15", "C16"],
+    "cause": ["C17"], "channel_consts": ["C06", "C07", "C08", "C10"],
+    "misc_consts": ["C01", "C09", "C10", "C11", "C12", "C18"],
+    "orderings": ["C01", "C02", "C03", "C04", "C06", "C07", "C08", "C09", "C10", "C11", "C15", "C18"],
+    "poll_signal_shape": ["C09", "C11"], "instance_shape": ["C12", "C14", "C18"],
+}
+
+
+def run_extract(pid=None):
     rc, out, err, dt = sh([sys.executable, os.path.join(VERIF, "extract", "extract.py")])
     if rc != 0:
         raise Broken("extract", (out + err).strip())
+    errs = {}
+    ep = os.path.join(VERIF, "extract_errors.json")
+    if os.path.exists(ep):
+        errs = json.load(open(ep))
+    mine = {k: v for k, v in errs.items() if pid is None or pid in SECTION_DEPS.get(k, [pid])}
+    if mine:
+        raise Broken("extract", "; ".join("%s: %s" % kv for kv in sorted(mine.items())))
     return out.strip()
 
 
